@@ -681,7 +681,11 @@ type Report struct {
 	Unreg      map[string]bool
 	RxFrames   int
 	LinkEnded  bool
-	WriteErr   error
+	// LinkCleanEOF: the application's side ended with a clean end-of-stream. Anything else (e.g. a
+	// TCP reset because the application closed a socket with unread data) may have discarded bytes
+	// the application wrote last.
+	LinkCleanEOF bool
+	WriteErr     error
 }
 
 func (s *Sim) Report() Report {
@@ -689,7 +693,7 @@ func (s *Sim) Report() Report {
 	defer s.mu.Unlock()
 	r := Report{Events: append([]Event(nil), s.events...), Violations: append([]Violation(nil), s.violations...),
 		Conns: map[string]*Conn{}, UI: append([]UIFrame(nil), s.ui...), Counters: map[string]int64{}, EverReg: map[string]bool{}, Unreg: map[string]bool{},
-		RxFrames: s.rxFrames, LinkEnded: s.rxEOF, WriteErr: s.outErr}
+		RxFrames: s.rxFrames, LinkEnded: s.rxEOF, LinkCleanEOF: s.rxEOF && (s.rxErr == io.EOF || s.rxErr == io.ErrUnexpectedEOF), WriteErr: s.outErr}
 	for _, c := range s.conns {
 		cp := *c
 		cp.Rx = *bytes.NewBuffer(append([]byte(nil), c.Rx.Bytes()...))
